@@ -42,41 +42,6 @@ def jhex (b : Bytes) : Json := Json.str (hex b)
 def fldHex (j : Json) (k : String) : R Bytes := do unhex (← fldStr j k)
 def optHex (j : Json) : R (Option Bytes) := if j.isNull then pure none else some <$> (do unhex (← j.getStr?))
 
-/-! `str.strip()` on UTF-8 bytes: Unicode white space is U+0009-000D, 001C-0020, 0085, 00A0, 1680,
-2000-200A, 2028, 2029, 202F, 205F, 3000 -/
-def ws1 (b : Nat) : Bool := b == 32 || (9 ≤ b && b ≤ 13) || (28 ≤ b && b ≤ 31)
-
-def wsPrefixLen : Bytes → Nat
-  | [] => 0
-  | b :: rest =>
-    if ws1 b then 1 else
-    match b, rest with
-    | 0xC2, c :: _ => if c == 0x85 || c == 0xA0 then 2 else 0
-    | 0xE1, 0x9A :: 0x80 :: _ => 3
-    | 0xE2, 0x80 :: d :: _ => if (0x80 ≤ d && d ≤ 0x8A) || d == 0xA8 || d == 0xA9 || d == 0xAF then 3 else 0
-    | 0xE2, 0x81 :: 0x9F :: _ => 3
-    | 0xE3, 0x80 :: 0x80 :: _ => 3
-    | _, _ => 0
-
-/-- same on the reversed text -/
-def wsSuffixLen : Bytes → Nat
-  | [] => 0
-  | b :: rest =>
-    if ws1 b then 1 else
-    match b, rest with
-    | c, 0xC2 :: _ => if c == 0x85 || c == 0xA0 then 2 else 0
-    | 0x80, 0x9A :: 0xE1 :: _ => 3
-    | 0x80, 0x80 :: 0xE3 :: _ => 3
-    | d, 0x80 :: 0xE2 :: _ => if (0x80 ≤ d && d ≤ 0x8A) || d == 0xA8 || d == 0xA9 || d == 0xAF then 3 else 0
-    | 0x9F, 0x81 :: 0xE2 :: _ => 3
-    | _, _ => 0
-
-partial def dropWs (len : Bytes → Nat) (l : Bytes) : Bytes :=
-  let n := len l
-  if n == 0 then l else dropWs len (l.drop n)
-
-def ustrip (l : Bytes) : Bytes := (dropWs wsSuffixLen (dropWs wsPrefixLen l).reverse).reverse
-
 /-- the library, with `utf8ok` and `loads` answered by the real Python functions (oracle tables
 computed by the harness on exactly the arguments the model passes); JSON values are carried as
 their text -/
@@ -84,7 +49,6 @@ def lib (utf8 : List (Bytes × Bool)) (json : List (Bytes × Bool)) : Lib Bytes 
   utf8ok := fun s => (utf8.lookup s).getD false
   loads := fun d => if (json.lookup d).getD false then some d else none
   dumps := id
-  ustrip := ustrip
   errReport := fun c => [91, 34] ++ c ++ [34, 93]
   helpText := fun _ => [34, 34]
 
@@ -127,6 +91,8 @@ def verdictJson : Verdict → Json
   | .split i => Json.mkObj [("clause", Json.str "lines_whole"), ("i", jnat i)]
   | .count n m => Json.mkObj [("clause", Json.str "one_reply_per_line"), ("requests", jnat n), ("replies", jnat m)]
   | .misfit k => Json.mkObj [("clause", Json.str "reply_fits"), ("k", jnat k)]
+  | .notUtf8 i => Json.mkObj [("clause", Json.str "valid_utf8"), ("i", jnat i)]
+  | .notStrict i => Json.mkObj [("clause", Json.str "strict_json"), ("i", jnat i)]
 
 def parseOracle (j : Json) (k : String) : R (List (Bytes × Bool)) := do
   (← fldArr j k).mapM (fun e => do
@@ -155,8 +121,11 @@ def handle (j : Json) : R Json := do
   | "judge" =>
     let stream ← fldHex j "stream"
     let outs ← (← fldArr j "outs").mapM (fun c => do unhex (← c.getStr?))
-    return Json.mkObj [("bad", verdictJson (judge tables stream outs))]
-  | "ustrip" => return Json.mkObj [("r", jhex (ustrip (← fldHex j "x")))]
+    let flags ← (← fldArr j "flags").mapM (fun e => do
+      match ← arr e with
+      | [a, b] => return (← a.getBool?, ← b.getBool?)
+      | _ => throw "bad flag entry")
+    return Json.mkObj [("bad", verdictJson (judgeAll tables stream outs flags))]
   | _ => throw s!"C07: unknown verb {k}"
 
 end Frappy.Drive.C07
